@@ -489,10 +489,9 @@ def Plan.fromStmts (p : Plan) : List Claim := p.destFields.filterMap (lastClaim 
 def readPaths (pp : List (List String)) (f : Field) : List (List String) :=
   ((List.range f.path.length).filterMap (fun i => if i = 0 then none else some (f.path.take i))).filter pp.contains
 
-/-- `Field.CoveredBy` -/
+/-- `Field.CoveredBy`: the pointer path is the field's path or a proper prefix of it -/
 def coveredBy (f : Field) (p : List String) : Bool :=
-  f.path == p || (p.isPrefixOf f.path && p.length < f.path.length) ||
-  (f.path.length ≥ 2 && f.path.getLast? == p.getLast?)
+  f.path == p || (p.isPrefixOf f.path && p.length < f.path.length)
 
 def joinPath (p : List String) : String := ".".intercalate p
 
